@@ -16,7 +16,9 @@ ALTER .. DROP COLUMN / second rebuild on another object right before its CREATE,
 statement after its RENAME (hand), a `migrate diff` step that rebuilds a table and drops a later-sorting one (the
 DROP directly follows the RENAME), and rename-based removals: rename then drop, rename chains ending in a drop,
 the rename-first rebuild (RENAME t TO t_old; CREATE t without a column; INSERT; DROP t_old), temporary tables
-that are renamed before they are dropped.
+that are renamed before they are dropped; and `-- atlas:nolint` directives (bare / DS102 / DS103 / destructive / a
+code that does not apply) at statement level on all, some or none of the destructive statements of a file (hand, and
+injected as review comments into `migrate diff` output) and at file level.
 
 Observation: `atlas migrate lint --dir file://migrations --dev-url sqlite://dev.db --latest N
 --format '{{ json . }}'` for every window N: exit status and Files[].Reports[].Diagnostics[].{Code,Pos,Text}.
@@ -33,6 +35,10 @@ also under the name of something it dropped earlier -- are never "pre-existing" 
 cross-checked with the model the files were generated from). Each dropped object must be covered by exactly one
 DS102 / DS103 diagnostic whose Pos lies inside the causing statement / group; nothing else may carry a DS1xx
 diagnostic; the exit status must be non-zero iff a DS1xx diagnostic was reported.
+nolint (documented semantics, directives parsed independently from the file text): a destructive statement excused
+by a directive on the statement lint reports on (DROP TABLE, ALTER .. DROP COLUMN, the CREATE of a rebuild) or by
+a file directive must not be reported; every other one must be reported as above and fail the exit status; a file
+with a single bare file directive may be absent from the report.
 For hand-written rebuilds that deviate from the canonical CREATE new_t / INSERT / DROP t / RENAME sequence
 (other temporary name, no INSERT, an extra or a foreign statement inside) any single DS102/DS103 inside the group is accepted,
 which is all the property statement asks for.
